@@ -17,8 +17,11 @@ from concurrent.futures import ThreadPoolExecutor
 VERIF = os.path.dirname(os.path.dirname(os.path.abspath(__file__)))
 WORK = os.path.join(VERIF, ".work")
 SIM = os.path.join(VERIF, "sim")
-EVID = os.path.join(VERIF, "evidence")
-REPLAYS = os.path.join(VERIF, "replays")
+# runs against a scratch copy (VERIF_REPO, sensitivity work only) must not
+# overwrite the evidence / replays of the real tree
+_ALT = os.path.abspath(os.environ.get("VERIF_REPO", "/repo")) != "/repo"
+EVID = os.path.join(WORK, "alt", "evidence") if _ALT else os.path.join(VERIF, "evidence")
+REPLAYS = os.path.join(WORK, "alt", "replays") if _ALT else os.path.join(VERIF, "replays")
 DEFAULT_SEED = 20261004
 NCPU = int(os.environ.get("VERIF_JOBS", "16"))
 
